@@ -340,7 +340,9 @@ fn gen_from(r: &mut Rng, cat: &Catalog, feats: &mut Vec<&'static str>, allow_cte
                         let sc = Scope { cols: table_scope(t, None, false) };
                         let mut f2 = vec![];
                         let w = if r.bool() { format!(" WHERE {}", predicate(r, &sc, 1, &mut f2)) } else { String::new() };
-                        format!("(SELECT * FROM {}{})", q(&t.name), w)
+                        // sometimes a side of at most 0 / 1 / 2 rows
+                        let lim = if r.chance(1, 3) { format!(" LIMIT {}", r.below(3)) } else { String::new() };
+                        format!("(SELECT * FROM {}{}{})", q(&t.name), w, lim)
                     };
                     format!("{} AS {} {} {} AS {} ON {}", side(r, t1), a1, kind, side(r, t2), a2, on)
                 } else {
@@ -380,6 +382,18 @@ fn gen_from(r: &mut Rng, cat: &Catalog, feats: &mut Vec<&'static str>, allow_cte
                 .map(|c| ColRef { sql: if r.bool() { format!("sub.{}", q(&c.name)) } else { q(&c.name) }, name: c.name.clone(), def: c.def.clone() })
                 .collect();
             FromClause { sql, scope: Scope { cols }, ctes: vec![] }
+        }
+        8 if r.chance(1, 4) => {
+            // a diamond: two CTEs over one shared CTE, joined
+            feats.push("cte_diamond");
+            let inner_scope = Scope { cols: table_scope(t1, None, false) };
+            let mut f2 = vec![];
+            let m = format!("dm AS (SELECT * FROM {} WHERE {})", q(&t1.name), predicate(r, &inner_scope, 1, &mut f2));
+            let l = format!("dl AS (SELECT * FROM dm WHERE {})", predicate(r, &inner_scope, 0, &mut f2));
+            let rr = "dr AS (SELECT * FROM dm)".to_string();
+            let mut cols = table_scope(t1, Some("dl"), true);
+            cols.extend(table_scope(t1, Some("dr"), true));
+            FromClause { sql: "dl JOIN dr ON dl.id = dr.id".to_string(), scope: Scope { cols }, ctes: vec![m, l, rr] }
         }
         8 => {
             // CTE, possibly shadowing a table name
@@ -532,8 +546,13 @@ fn gen_select(r: &mut Rng, cat: &Catalog, feats: &mut Vec<&'static str>, allow_o
                     (format!("(1 + SUM({}) / (COUNT({}) + 1))", c.sql, c.sql), Ty::Num)
                 }
                 11 if !nums.is_empty() => {
-                    feats.push("sum_distinct");
-                    (format!("SUM(DISTINCT {})", r.pick(&nums).sql), Ty::Num)
+                    if r.bool() {
+                        feats.push("sum_distinct");
+                        (format!("SUM(DISTINCT {})", r.pick(&nums).sql), Ty::Num)
+                    } else {
+                        feats.push("avg_distinct");
+                        (format!("AVG(DISTINCT {})", r.pick(&nums).sql), Ty::Num)
+                    }
                 }
                 _ => ("COUNT(*)".to_string(), Ty::Num),
             };
